@@ -59,7 +59,7 @@ fn tiny_case(rng: &mut Rng, pkg: Pkg, comp: Comp) -> ContCase {
         defer: 0,
         free: 0x5eed_f7ee_da7a,
     };
-    ContCase { content, dir, pkg, extra: vec![] }
+    ContCase { content, dir, pkg, extra: vec![], id_gap: 0 }
 }
 
 fn medium_case(rng: &mut Rng) -> ContCase {
@@ -87,7 +87,7 @@ fn medium_case(rng: &mut Rng) -> ContCase {
         unique_keys: false,
     };
     let dir = DirCase { seed: rng.next(), vstores: vec![false, true], stores: vec![files], indexes: vec![IndexDef { name: "files".into(), store: 0, offset: 0, count: n as u32 }], defer: 0, free: 0 };
-    ContCase { content, dir, pkg: Pkg::OneFile, extra: vec![] }
+    ContCase { content, dir, pkg: Pkg::OneFile, extra: vec![], id_gap: 0 }
 }
 
 static SPECIMENS: OnceLock<Vec<Specimen>> = OnceLock::new();
